@@ -216,9 +216,6 @@ Proof.
   destruct (u_for u), (u_host u), (u_proto u), (u_port u), (u_by u), (u_fwd u); auto 10 using agree_pop.
 Qed.
 
-Definition out_rel (D : str -> bool) (clear : bool) (r1 r2 : result environ) : Prop :=
-  rrelG (agree D) r1 r2.
-
 (* the middleware on two environs that agree outside D *)
 Lemma middleware_rel D c e1 e2 :
   unread D (tph_of c) -> D k_remote_addr = false -> agree D e1 e2 ->
